@@ -29,12 +29,14 @@ MATS = ["NeoHooke", "NeoHookeCompressible", "tt:yeoh", "tt:ogden", "jax:mooney_r
         "tt:miehe_goektepe_lulei", "LinearElasticLargeStrain"]
 AXIS = ["internal/3d", "internal/planestrain", "internal/axi", "internal/mixed", "internal/mixed-axi", "internal/nearlyinc", "internal/nearlyinc-axi",
         "internal/mini", "bodyforce/3d", "bodyforce/planestrain", "bodyforce/axi", "bodyforce/mixed", "gravity", "pointload", "pointload/axi", "pressure/3d",
-        "pressure/planestrain", "pressure/axi", "mass", "mass/mixed", "mass/axi", "mpc", "contact"]
+        "pressure/planestrain", "pressure/axi", "mass", "mass/mixed", "mass/axi", "mass/nearlyinc", "mpc", "contact"]
 
 
 def kinds_for(ax):
     if ax in ("internal/3d", "gravity", "pointload", "mass", "mpc", "contact", "bodyforce/3d"):
         return c01.K3 + c01.K2
+    if ax == "mass/nearlyinc":
+        return c01.K3
     if ax in ("internal/mixed", "bodyforce/mixed", "mass/mixed"):
         return ["hexahedron", "hexahedron20", "tetra10", "quad", "triangle6"]
     if ax == "internal/mini":
@@ -290,15 +292,23 @@ def check(ax, case, rec):
             rec.reject("no two-field material")
             return
         variant = c["lseed"] % 3
+        if kind == "nearlyinc":
+            # the condensed nearly-incompressible body carries its own mass method
+            mk = lambda **kw: fem.SolidBodyNearlyIncompressible(fem.NeoHooke(mu=1.0) if dim == 3 else um, fc, bulk=20.0, **kw)  # noqa
+            if dim != 3:
+                rec.reject("condensed body: 3-d only here")
+                return
+        else:
+            mk = lambda **kw: fem.SolidBody(um, fc, **kw)  # noqa
         if variant == 0:
-            body = fem.SolidBody(um, fc, density=rho)
+            body = mk(density=rho)
             M = body.assemble.mass()
         elif variant == 1:
-            body = fem.SolidBody(um, fc)
+            body = mk()
             M = body.assemble.mass(density=rho)
         else:
             # a density handed to mass() takes precedence over the one stored in the body
-            body = fem.SolidBody(um, fc, density=2.5 * rho + 0.3)
+            body = mk(density=2.5 * rho + 0.3)
             M = body.assemble.mass(density=rho)
         rec.label(("stored-density", "density-argument", "argument-overrides-stored-density")[variant])
         M = np.asarray(M.toarray())
